@@ -77,3 +77,6 @@ class GroupType(EntityType):
         if not isinstance(allow, bool) and allow != 1 and allow != 0:
             raise TypeError("'allow_delete_content must be a boolean.")
         self._allow_delete_content = bool(allow)
+
+        if self.workspace:
+            self.workspace.update_attribute(self, "attributes")
